@@ -42,6 +42,13 @@ func genCountCase(r *Rng, tier string) CountCase {
 				if r.Bool() {
 					c.Grow[0] = -(n + 2)
 				}
+			} else if n <= 5 && r.Chance(1, 2) { // a clause over new variables only, the highest first
+				c.Grow = []int{n + 3, n + 1, n + 2}
+				for i := range c.Grow {
+					if r.Chance(1, 4) {
+						c.Grow[i] = -c.Grow[i]
+					}
+				}
 			}
 		}
 	}
@@ -333,7 +340,10 @@ func runCountCase(o *Oracle, d json.RawMessage, oc *Outcome) {
 	if c.Solved {
 		s3.Solve()
 	}
-	if k := s3.Enumerate(nil, nil); k != len(want) {
+	stopAppends := mirrorAppends(o, oc, s3, "solver.Enumerate(nil)")
+	k3 := s3.Enumerate(nil, nil)
+	stopAppends()
+	if k := k3; k != len(want) {
 		oc.Fail("spec", "count", "solver.Enumerate(nil)", "Enumerate(nil) = %d, the problem has %d models", k, len(want))
 	}
 }
